@@ -6,7 +6,8 @@ THEOREMS = {
             "Backend.C03_dispatch_exact", "Backend.C03_dispatch_no_fault", "Backend.C03_pop_emits_dispatch",
             "Backend.C03_ids_unique", "Backend.C03_at_most_once", "Backend.C03_writes_only_of_popped",
             "Backend.C03_popLog_merge", "Backend.C03_nothing_written_before_pop", "Backend.C03_pop_writes_exactly",
-            "Backend.C03_writes_frozen_after_pop", "Backend.C03_exactly_once", "Backend.C03_fresh_inv", "Backend.c03Init_fresh",
+            "Backend.C03_writes_frozen_after_pop", "Backend.C03_exactly_once", "Backend.C03_fresh_ordInv", "Backend.C03_thread_order_blocks",
+            "Backend.C03_thread_order_at_sink", "Backend.C03_fresh_inv", "Backend.c03Init_fresh",
             "Backend.PA.runOps_closed", "Obligations.backendA_C03_structure", "Obligations.C03_extracted"],
     "C10": ["Backend.C10_conservation_under_faults", "Backend.C10_pop_on_every_path", "Backend.C10_process_makes_progress",
             "Backend.C10_write_fault_local", "Backend.C10_process_event_local", "Backend.C10_fault_schedule_constant",
